@@ -63,6 +63,7 @@ class ByteOf:
     def __repr__(self): return "ByteOf(%s,%d)" % (self.t.s, self.i)
 
 class Panic(Exception): pass
+class ThreadEnd(Exception): pass   # vsym::end_thread: unwinds to the enclosing vsym::run_until_end
 class Infeasible(Exception): pass
 class Unsupported(Exception): pass
 class AbortPath(Exception): pass
